@@ -65,12 +65,13 @@ func adjacentMixedOps(toks []string) bool {
 func check(c Case, o *vf.Obs) error {
 	txt := c.text()
 	o.Class(c.Kind)
+	o.Class("reader-" + texts.ReaderKind(txt))
 	o.ClassIf(c.How != "" && c.Kind == "negative", "corruption-"+c.How)
 	o.ClassIf(c.How != "" && c.Kind == "positive", c.How)
 	o.ClassIf(strings.ContainsAny(txt, "\n\t"), "newline-or-tab")
 	var f bf.Formula
 	var err error
-	perr := vf.Safely(func() error { f, err = bf.Parse(strings.NewReader(txt)); return nil })
+	perr := vf.Safely(func() error { f, err = bf.Parse(texts.ReaderFor(txt)); return nil })
 	if perr != nil {
 		return fmt.Errorf("Parse(%q): %v", txt, perr)
 	}
